@@ -6,4 +6,5 @@ CONSTANTS
   FixD3 = TRUE
   FixD10 = TRUE
   FixD12 = TRUE
+  FixD17 = TRUE
 PROPERTY C06_StopTerminates
